@@ -10,8 +10,12 @@ ENGINES = [
      "kind_free_text": "explicit-state BFS whose transitions are real setter calls on real objects; exact-state dedup; depth bound or fixpoint"},
 ]
 _PENDING = "check not built yet in this round (machinery under construction; see DESIGN.md section 3)"
-NOT_APPLICABLE = {p: _PENDING for p in ["C02", "C06", "C10", "C11", "C13", "C14", "C15", "C16", "C17", "C18"]}
+NOT_APPLICABLE = {p: _PENDING for p in ["C02", "C06", "C10", "C11", "C14", "C15", "C16", "C17", "C18"]}
 META = {
+    "C13": {"engine": "sched-explore (scheduler + TSan) + free-running TSan", "design_ref": "3/C13",
+            "technique": "stateless exhaustive exploration of thread interleavings of the real code under a controlled scheduler (points at every atomic operation), preemption-bounded / complete with state-hash pruning, ThreadSanitizer as race oracle in every schedule",
+            "text": "Every interleaving (up to the preemption bound; all of them in the thorough tier) of 2-3 real threads through the lazy table initialisation and through set_max_input_length vs parse/can_parse/setters is executed in a fresh process; results must equal the sequential results and ThreadSanitizer must stay silent; deadlock, livelock, crash and hang are violations.",
+            "note": "Sequentially consistent scheduler + TSan happens-before on the real memory orders; 2-3 threads under the scheduler, up to 16 free-running. Spin-cap timeout path not explored."},
     "C03": {"engine": "hist-bfs + refurl/refidna", "design_ref": "3/C03",
             "technique": "explicit-state BFS whose transitions are real setter calls, run in lockstep with a reference model of the Standard's API setters (state override parser); exact-state dedup; depth bound / fixpoint",
             "text": "From every initial URL every (setter, value) of the menu is applied to both ada URL types and to the refurl record; after each step the full state must equal the model's, a setter returning false must leave every observable unchanged, every new state must resolve a menu of relative references as the model does, and futures of the state and of its re-parsed twin must agree.",
